@@ -272,11 +272,11 @@ def add_unproductive_cycle(spec, g):
     therefore dead; where it sits among S's rules is up to the presentation"""
     if 'D' in spec['nts']:
         return spec
-    st = spec['nts']['S']['type']
+    st = spec['nts'][spec['start']]['type']
     spec['nts']['D'] = {'type': []}
     nodes = [{'label': nl, 'id': None} for nl in st]
     spec['rules'].append({'lhs': 'D', 'nodes': nodes, 'ext': [],
-                          'edges': [{'label': 'S', 'att': list(range(len(st))), 'id': None}, {'label': 'D', 'att': [], 'id': None}]})
+                          'edges': [{'label': spec['start'], 'att': list(range(len(st))), 'id': None}, {'label': 'D', 'att': [], 'id': None}]})
     # the dead S rule: same externals as S, an edge D and (maybe) a terminal
     nodes = [{'label': nl, 'id': None} for nl in st]
     edges = [{'label': 'D', 'att': [], 'id': None}]
@@ -285,7 +285,7 @@ def add_unproductive_cycle(spec, g):
         n = g.choice(sorted(ts))
         edges.append({'label': n, 'att': [st.index(x) for x in spec['terms'][n]['type']], 'id': None})
     pos = g.randrange(len(spec['rules']) + 1)
-    spec['rules'].insert(pos, {'lhs': 'S', 'nodes': nodes, 'ext': list(range(len(st))), 'edges': edges})
+    spec['rules'].insert(pos, {'lhs': spec['start'], 'nodes': nodes, 'ext': list(range(len(st))), 'edges': edges})
     return spec
 
 
@@ -304,7 +304,7 @@ def ensure_internal_node(spec, g, menu='prob'):
 
 def force_recursion(spec, g, nonlinear=False):
     """make the start symbol's SCC cyclic: add S -> (terminals) S [S] over S's own external nodes"""
-    st = spec['nts']['S']['type']
+    st = spec['nts'][spec['start']]['type']
     nodes = [{'label': nl, 'id': None} for nl in st]
     k = len(st)
     edges = []
@@ -323,14 +323,14 @@ def force_recursion(spec, g, nonlinear=False):
                 spec['terms'][name] = {'type': [nl, nl], 'weights': gen_weights(g, [sz, sz], 'small')}
                 ts = [name]
             edges.append({'label': g.choice(sorted(ts)), 'att': [i, j], 'id': None})
-        edges.append({'label': 'S', 'att': att, 'id': None})
+        edges.append({'label': spec['start'], 'att': att, 'id': None})
     if not st:
         ts = [n for n, t in spec['terms'].items() if t['type'] == []]
         if not ts:
             spec['terms']['c0'] = {'type': [], 'weights': round(0.1 + 0.3 * g.random(), 3)}
             ts = ['c0']
         edges.append({'label': g.choice(sorted(ts)), 'att': [], 'id': None})
-    spec['rules'].insert(g.randrange(len(spec['rules']) + 1), {'lhs': 'S', 'nodes': nodes, 'ext': list(range(k)), 'edges': edges})
+    spec['rules'].insert(g.randrange(len(spec['rules']) + 1), {'lhs': spec['start'], 'nodes': nodes, 'ext': list(range(k)), 'edges': edges})
     return spec
 
 
@@ -386,14 +386,14 @@ def add_closure_nt(spec, g, menu='small'):
                           'edges': [{'label': 'T', 'att': [0, 2], 'id': None}, {'label': 'aT', 'att': [2, 1], 'id': None}]})
     if g.random() < 0.5:
         spec['rules'][-2], spec['rules'][-1] = spec['rules'][-1], spec['rules'][-2]
-    st = spec['nts']['S']['type']
+    st = spec['nts'][spec['start']]['type']
     nodes = [{'label': x, 'id': None} for x in st]
     idx = [i for i, x in enumerate(st) if x == nl]
     while len(idx) < 2:
         nodes.append({'label': nl, 'id': None})
         idx.append(len(nodes) - 1)
     a, b = g.sample(idx, 2)
-    spec['rules'].append({'lhs': 'S', 'nodes': nodes, 'ext': list(range(len(st))), 'edges': [{'label': 'T', 'att': [a, b], 'id': None}]})
+    spec['rules'].append({'lhs': spec['start'], 'nodes': nodes, 'ext': list(range(len(st))), 'edges': [{'label': 'T', 'att': [a, b], 'id': None}]})
     return spec
 
 
@@ -409,15 +409,15 @@ def constant_factors(spec, g, p=0.3):
     return spec
 
 
-def ring_chord_spec(g, menu='small'):
+def ring_chord_spec(g, menu='small', vec=None, min_sz=1):
     """one linearly recursive SCC of 3-5 mutually recursive nonterminals: a ring X0 -> X1 -> ... -> X0 with chords, every
     nonterminal with a base rule, names drawn from the stream (the elimination order inside multi_solve depends on names,
     on registration order and on which member is the start symbol).  Vector-valued (arity 1) or scalar members."""
     k = g.randrange(3, 6)
     pool = ['N%s%d' % (c, d) for c in 'abpqxyz' for d in range(10)]
     names = g.sample(pool, k)
-    sz = g.choice([1, 2, 2, 3])
-    vec = g.random() < 0.6
+    sz = max(min_sz, g.choice([1, 2, 2, 3]))
+    vec = (g.random() < 0.6) if vec is None else vec
     domains = {'A': {'kind': 'range', 'size': sz} if g.random() < 0.5 else {'kind': 'finite', 'values': ['a', 'b', 'c'][:sz]}}
     typ = ['A'] if vec else []
     nts = {n: {'type': list(typ)} for n in names}
